@@ -315,9 +315,9 @@ fn seq_run(ctx: &mut Ctx, id: &'static str, which: Which) {
         }
     }
     if ctx.tier == Tier::Thorough {
-        for a in INV.iter().step_by(2) {
+        for a in INV {
             for b in INV {
-                for c in INV.iter().step_by(3) {
+                for c in INV {
                     bodies.push(format!("{a}\n{b}\n{c}\n"));
                 }
             }
@@ -362,7 +362,7 @@ pub static C20: PropDef = PropDef {
     id: "C20",
     level: "exploration",
     engine: "sweep",
-    rule: "programs = one of 7 definitions of sequence gate A x 4 of B x 3 of C (nesting, a self cycle, a cycle through C, parameter passing, an unused formal qubit, an inner call that permutes the formal qubits) + a matrix DEFGATE, x every body of 1-2 invocations from a 12-item menu (right / wrong arity, wrong parameter count, modifier on a sequence gate, variable qubit, plain gates, MEASURE) x all 8 selection filters over {A,B,C}: result body / error class, kept definitions and untouched rest compared with the reference. non-trivial = case with at least one real expansion",
+    rule: "programs = one of 7 definitions of sequence gate A x 4 of B x 3 of C (nesting, a self cycle, a cycle through C, parameter passing, an unused formal qubit, an inner call that permutes the formal qubits) + a matrix DEFGATE, x every body of 1-2 (thorough 3) invocations from a 12-item menu (right / wrong arity, wrong parameter count, modifier on a sequence gate, variable qubit, plain gates, MEASURE) x all 8 selection filters over {A,B,C}: result body / error class, kept definitions and untouched rest compared with the reference. non-trivial = case with at least one real expansion",
     assumptions: ASSUME,
     run: |ctx| seq_run(ctx, "C20", Which::C20),
     replay: |c| seq_replay("C20", Which::C20, c),
